@@ -40,6 +40,11 @@ pub trait Comp: Component + Send + Sync + Default + 'static {
     fn slice_write(_s: &mut WriteStorage<Self>, _idx: u32, _target: Snap, _p: u64) -> bool {
         false
     }
+    /// Walk the slice view observing every initialised slot (ledger-checked);
+    /// returns the number of slots looked at.
+    fn slice_observe(_s: &ReadStorage<Self>) -> u64 {
+        0
+    }
     /// Structural self-check hook (dense storage only).
     fn structural(_s: &ReadStorage<Self>) -> Result<bool, String> {
         Ok(false)
@@ -156,6 +161,20 @@ macro_rules! slice_impl {
             }
             Ok(n)
         }
+        fn slice_observe(s: &ReadStorage<Self>) -> u64 {
+            let sl = s.as_slice();
+            let mut n = 0;
+            for i in s.mask().join() {
+                if (i as usize) < sl.len() {
+                    // SAFETY: index i is in the mask.
+                    let _ = unsafe { sl[i as usize].assume_init_ref() }.observe();
+                    n += 1;
+                } else {
+                    ledger::fault(format!("as_slice() has {} slots but index {} is in the mask", sl.len(), i));
+                }
+            }
+            n
+        }
         fn slice_write(s: &mut WriteStorage<Self>, idx: u32, _target: Snap, p: u64) -> bool {
             let sl = s.as_mut_slice();
             // SAFETY: caller passes an occupied index.
@@ -195,6 +214,9 @@ macro_rules! slice_impl {
             }
             Ok(n)
         }
+        fn slice_observe(s: &ReadStorage<Self>) -> u64 {
+            s.as_slice().iter().map(|c| c.observe()).count() as u64
+        }
         fn slice_write(s: &mut WriteStorage<Self>, idx: u32, _target: Snap, p: u64) -> bool {
             s.as_mut_slice()[idx as usize].set_payload(p);
             true
@@ -216,6 +238,9 @@ macro_rules! slice_impl {
                 ));
             }
             Ok(got.len() as u64)
+        }
+        fn slice_observe(s: &ReadStorage<Self>) -> u64 {
+            s.as_slice().iter().map(|c| c.observe()).count() as u64
         }
         fn slice_write(s: &mut WriteStorage<Self>, _idx: u32, target: Snap, p: u64) -> bool {
             for c in s.as_mut_slice().iter_mut() {
@@ -420,6 +445,8 @@ pub trait Driver: Send + Sync {
     fn lazy_insert_all(&self, lazy: &LazyUpdate, items: &[(Entity, u64)]) -> Vec<Snap>;
     fn lazy_remove(&self, lazy: &LazyUpdate, e: Entity);
     fn clear(&self, w: &World);
+    /// Observe every slot of the slice view (if any) and run the structural hook.
+    fn observe_slices(&self, w: &World) -> Result<u64, String>;
 }
 
 pub struct Drv<C: Comp>(pub PhantomData<fn() -> C>);
@@ -730,6 +757,12 @@ where
     fn clear(&self, w: &World) {
         w.write_storage::<C>().clear();
     }
+    fn observe_slices(&self, w: &World) -> Result<u64, String> {
+        let s = w.read_storage::<C>();
+        let n = C::slice_observe(&s);
+        C::structural(&s)?;
+        Ok(n)
+    }
 }
 
 /// Silence "unused" for EntitiesRes import on some cfgs.
@@ -751,6 +784,29 @@ pub fn all_drivers() -> Vec<Box<dyn Driver>> {
         Drv::<CDerefDefault>::boxed(),
         Drv::<CVec2>::boxed(),
         Drv::<CDense2>::boxed(),
+        Drv::<CFlagNull>::boxed(),
+    ]
+}
+
+/// Every storage kind / wrapper combination.
+pub fn every_driver() -> Vec<Box<dyn Driver>> {
+    vec![
+        Drv::<CVec>::boxed(),
+        Drv::<CDense>::boxed(),
+        Drv::<CDefault>::boxed(),
+        Drv::<CHash>::boxed(),
+        Drv::<CBTree>::boxed(),
+        Drv::<CNull>::boxed(),
+        Drv::<CFlagVec>::boxed(),
+        Drv::<CFlagDense>::boxed(),
+        Drv::<CFlagDefault>::boxed(),
+        Drv::<CFlagHash>::boxed(),
+        Drv::<CFlagBTree>::boxed(),
+        Drv::<CDerefVec>::boxed(),
+        Drv::<CDerefDense>::boxed(),
+        Drv::<CDerefDefault>::boxed(),
+        Drv::<CDerefHash>::boxed(),
+        Drv::<CDerefBTree>::boxed(),
         Drv::<CFlagNull>::boxed(),
     ]
 }
